@@ -283,6 +283,13 @@ class VIter(Val):
     def key(self):
         return ("iter", valkey(self.slice), self.pos.key() if hasattr(self.pos, "key") else self.pos)
 
+    def at(self, pos):
+        return type(self)(self.slice, pos)
+
+    def item(self, k, ref):
+        """the item yielded at position k (a Lin) given the reference to the element"""
+        return ref
+
 
 class VElems(Val):
     """n consecutive k-bit groups of buf starting at bit pos, each mapped through `elem`
@@ -308,6 +315,33 @@ class VIterEnum(VIter):
 
     def key(self):
         return ("iterenum",) + VIter.key(self)[1:]
+
+    def item(self, k, ref):
+        return VTuple((VInt(64, False, lin=k), ref))
+
+
+class VIterZipLin(VIter):
+    """slice.iter().zip(<arithmetic progression start, start+step, ...>): items are
+    (&element, start + step*k); the progression is unbounded (a RangeFrom, possibly stepped), so
+    the zip ends exactly when the slice does"""
+    __slots__ = ("start", "step", "w", "s", "first")
+
+    def __init__(self, sl, pos, start, step, w, s, first):
+        VIter.__init__(self, sl, pos)
+        self.start, self.step, self.w, self.s, self.first = start, step, w, s, first
+
+    def __repr__(self):
+        return "zip(%r @%r, %r+%d*k)" % (self.slice, self.pos, self.start, self.step)
+
+    def key(self):
+        return ("iterzip",) + VIter.key(self)[1:] + (self.start.key(), self.step, self.w, self.s, self.first)
+
+    def at(self, pos):
+        return VIterZipLin(self.slice, pos, self.start, self.step, self.w, self.s, self.first)
+
+    def item(self, k, ref):
+        n = VInt(self.w, self.s, lin=self.start + k.scale(self.step))
+        return VTuple((ref, n) if self.first else (n, ref))
 
 
 class VOpaque(Val):
